@@ -341,7 +341,7 @@ Section Open.
     SInv st -> step st o = Ok st' -> closed st' = true ->
     exists cat info, o = Close cat info /\ close cat info st = Ok st'.
   Proof.
-    intros SI H Hc. unfold Writer.step in H. destruct (closed st) eqn:C0; [discriminate|]. destruct o.
+    intros SI H Hc. apply step_ok in H. unfold Writer.step0 in H. destruct (closed st) eqn:C0; [discriminate|]. destruct o.
     - binv H. destruct a as [r st1]. injection Hk as <-.
       destruct (alloc_fields _ _ _ Hb) as [_ [_ [_ [_ [_ [_ [F7 _]]]]]]]. congruence.
     - eapply put_inv in H; [|exact SI]. destruct H as [_ [C1 _]]. congruence.
@@ -362,7 +362,8 @@ Section Open.
       + destruct (step_closed _ _ _ SI Hb Ca) as [cat [info [-> Hcl]]].
         destruct ops as [|o2 ops]; cbn [Writer.run_from] in Hk.
         * injection Hk as <-. exists st0, cat, info. split; [apply ext_refl | auto].
-        * unfold Writer.step in Hk. rewrite Ca in Hk. discriminate.
+        * unfold Writer.step, Writer.step0 in Hk. rewrite Ca in Hk.
+          destruct (accepts _ _ _) in Hk; discriminate.
       + destruct (step_inv _ _ _ _ _ _ _ _ _ _ SI Hb) as [_ [[S1 _]|F]].
         * destruct (IH _ _ S1 Ca Hk Hc) as [st1 [cat [info [E [S2 Hcl]]]]]. exists st1, cat, info.
           split; [eapply ext_trans; [eapply step_ext; eassumption | exact E] | auto].
@@ -404,7 +405,7 @@ Section Open.
          out st' = out st5 ++ table_section (xref st5) (nextRef st5)
                                 (trailer_dict c root iref (nextRef st5)) ++ tail (pos st5)).
   Proof.
-    intros H. unfold Writer.close in H. destruct (strm st) eqn:Hs; [discriminate|].
+    intros H. apply close_ok in H. unfold Writer.close0 in H. destruct (strm st) eqn:Hs; [discriminate|].
     binv H. destruct a as [croot st1]. binv Hk. binv Hk0. destruct a0 as [iref st5].
     cbv zeta in Hk. binv Hk. injection Hk0 as <-.
     destruct (alloc_next _ _ _ Hb) as [-> [N1 B1]].
@@ -712,7 +713,8 @@ Section Bounded.
 
   Lemma close_bx cat info st st' : close cat info st = Ok st' -> bx st st'.
   Proof.
-    unfold Writer.close. destruct (strm st); [discriminate|].
+    intros Hc0; apply close_ok in Hc0; revert Hc0.
+    unfold Writer.close0. destruct (strm st); [discriminate|].
     intros H. binv H. destruct a as [croot st1]. binv Hk. binv Hk0. destruct a0 as [iref st5].
     cbv zeta in Hk. binv Hk. inversion Hk0; subst.
     eapply bx_trans; [eapply alloc_bx; eassumption|].
@@ -734,7 +736,8 @@ Section Bounded.
 
   Lemma step_bx st o st' : step st o = Ok st' -> bx st st'.
   Proof.
-    unfold Writer.step. destruct (closed st); [discriminate|]. destruct o.
+    intros Hs0; apply step_ok in Hs0; revert Hs0.
+    unfold Writer.step0. destruct (closed st); [discriminate|]. destruct o.
     - intros H. binv H. destruct a as [r st1]. inversion Hk; subst. eapply alloc_bx; eassumption.
     - apply put_bx.
     - apply write_compressed_bx.
